@@ -25,6 +25,8 @@ const (
 	kWTPanic         = "webtransport server: panic in the read loop"
 )
 
+const maxWTLength = 1 << 18
+
 type wtCase struct {
 	Part   string `json:"part"`
 	Limit  int    `json:"limit"`  // MaxBufferSize; 0 = disabled
@@ -63,14 +65,19 @@ func (r *chunkReader) Read(p []byte) (int, error) {
 	return n, nil
 }
 
-// wtFrame frames a payload the way the Engine.IO v4 WebTransport framing does (lengths < 65536 only).
+// wtFrame frames a payload the way the Engine.IO v4 WebTransport framing does.
 func wtFrame(payload []byte, isBinary bool) []byte {
 	var h []byte
-	if len(payload) < 126 {
+	switch {
+	case len(payload) < 126:
 		h = []byte{byte(len(payload))}
-	} else {
+	case len(payload) < 65536:
 		h = []byte{126, 0, 0}
 		binary.BigEndian.PutUint16(h[1:], uint16(len(payload)))
+	default:
+		h = make([]byte, 9)
+		h[0] = 127
+		binary.BigEndian.PutUint64(h[1:], uint64(len(payload)))
 	}
 	if isBinary {
 		h[0] |= 0x80
@@ -181,19 +188,19 @@ func runWTCase(c *ctx, wc wtCase, st *partStats) {
 }
 
 func wtCases(c *ctx) []wtCase {
-	limits := []int{0, 1, 5, 16, 126, 1000, 40000}
+	limits := []int{0, 1, 5, 16, 126, 1000, 40000, 70000}
 	var cases []wtCase
 	for _, l := range limits {
 		var lens []int
 		if l > 0 {
-			lens = []int{1, l - 1, l, l + 1, 2 * l, 125, 126, 127, 32768, 65535}
+			lens = []int{1, l - 1, l, l + 1, 2 * l, 125, 126, 127, 32768, 65535, 65536}
 			if c.thorough {
-				lens = append(lens, 2, l+2, 3*l, l+4096, l+4097, 4096, 65534)
+				lens = append(lens, 2, l+2, 3*l, l+4096, l+4097, 4096, 65534, 65537, 131072)
 			}
 		} else {
-			lens = []int{1, 125, 126, 127, 1000, 32768, 65535}
+			lens = []int{1, 125, 126, 127, 1000, 32768, 65535, 65536}
 			if c.thorough {
-				lens = append(lens, 2, 4096, 65534)
+				lens = append(lens, 2, 4096, 65534, 65537, 131072)
 			}
 		}
 		chunks := []int{1, 2, 3, 7, 64, l, l + 1, 0}
@@ -209,7 +216,7 @@ func wtCases(c *ctx) []wtCase {
 			}
 		}
 		for _, n := range uniqSorted(lens) {
-			if n > 65535 {
+			if n > maxWTLength {
 				continue
 			}
 			for _, k := range cs {
@@ -238,7 +245,7 @@ func runWT(c *ctx) partStats {
 func replayWT(c *ctx, raw json.RawMessage) partStats {
 	st := partStats{Outcomes: map[string]int{}}
 	var wc wtCase
-	if err := json.Unmarshal(raw, &wc); err != nil || wc.Length < 1 || wc.Length > 65535 {
+	if err := json.Unmarshal(raw, &wc); err != nil || wc.Length < 1 || wc.Length > maxWTLength {
 		c.harnessErr("replay: bad wt replay data")
 		return st
 	}
